@@ -14,7 +14,9 @@ import copyvm as _copyvm
 CONFIG = {
     "post_model": _copyvm.vm_sample("GC04"),
     "properties_file": "Properties/C04.v",
-    "proof_files": ["Base/Prelude.v", "Proofs/CopySpec.v", "Proofs/CopyAcct.v", "Proofs/CopyOpt.v"],
+    "proof_files": ["Base/Prelude.v", "Proofs/CopySpec.v", "Proofs/CopyAcct.v", "Proofs/CopyOpt.v",
+                    # the permit protocol (C02's protocol part): C04_permits_conserved / C04_inflight_bounded are restated in Properties/C04.v
+                    "Model/CopyImpl.v", "Proofs/CopyImplBase.v", "Proofs/CopyImplInv.v", "Properties/C02_protocol.v"],
     "model_files": ["Generated/GC04.v", "Model/CopySpec.v", "Model/CopyTop.v", "Model/CopyOpt.v"],
     "extract": "XC04.v",
     "ml_main": "c01_main.ml",
@@ -26,7 +28,7 @@ CONFIG = {
     "assumptions": [
         "optional callbacks: which of PreCopy/PostCopy/OnCopySkipped/OnMounted/MountFrom (and FindSuccessors, MapRoot) are nil is chosen per run, including all nil = default options; a recorded trace then has no events for nil callbacks and is elaborated by Model/CopyOpt.step_opt (the invocation points of nil callbacks are inserted, an event of a nil callback is rejected); the *_any_callbacks theorems hold for every such choice",
         "ExtendedCopyGraph / ExtendedCopy: the roots above the node (generator's predecessor relation; findRoots itself is C03's) are the model's c_root :: c_xroots, dispatched together and sharing tracker, proxy and limiter; the final Tag of ExtendedCopy is checked by the oracle only",
-        "semaphore.Weighted / errgroup / syncutil.Go / LimitedRegion are modelled by their visible effect only: a task is 'active' between the first and last visible event of a segment in which it certainly holds a permit (the real permit is acquired earlier and released later), and at most K tasks are active; the permit protocol itself (held + free = K, End/Start idempotence) is NOT modelled (DESIGN's CopyImpl / C04_permits is not built)",
+        "semaphore.Weighted / errgroup / syncutil.Go / LimitedRegion: in Model/CopySpec.v a task is 'active' between the first and last visible event of a segment in which it certainly holds a permit, and at most K tasks are active (a guard of the acceptor, checked against every recorded trace); the permit protocol itself is proved on Model/CopyImpl.v (C02's protocol part, tied to the real syncutil/Tracker by cmd/goimpl): C04_permits_conserved, C04_inflight_bounded_by_permits are restated in Properties/C04.v and their proofs are part of C04's proof layer; C04_inflight_on_trace links the model counters to the trace (opens minus closes)",
         "status.Tracker.TryCommit single ownership is modelled as one phase per node, tied to the code by trace acceptance (a second Exists/Fetch/Push of a node is rejected) and by the oracle's per-node counters",
         "a source read is in flight from the call of Fetch until Close of the returned reader (for manifests Close also joins the cache push); a destination operation from call to return of Exists/Push/PushReference/Tag",
         "registry.Mounter destinations are modelled and exercised through an in-harness Mounter wrapper (PRNG decides whether a candidate repository has the blob); the upload inside Mount is one destination operation",
@@ -34,7 +36,7 @@ CONFIG = {
         "goroutine scheduling: theorems quantify over all interleavings of visible events accepted by the transition system; the runs use free-running goroutines with PRNG latencies/yields and PRNG-controlled schedules under testing/synctest",
     ],
     "level_text": "Coq theorems over every trace accepted by the copyGraph transition system (all graphs, initial destinations, K, modes, interleavings): at every prefix at most K source reads and K destination operations in flight (K = 3 regenerated from copy.go when Concurrency <= 0); per node at most one source fetch and one push; PreCopy/PostCopy/OnCopySkipped at most once per node; a transferred node of a successful copy has exactly one PreCopy before and exactly one PostCopy after its push and no OnCopySkipped; PostCopy after the terminal notification of every successor; a failing callback excludes a successful return. Tied to copy.go by trace acceptance of recorded runs (contention-heavy budget) and an independent monitor (gauges, counters, order, error identity).",
-    "level_note": "partial: the limiter hand-off protocol (region.End/Start, permit conservation) is observed through the in-flight gauges and the acceptor's active-task bound, not proved on a protocol model; 'the returned error is the callback's error' is checked by the oracle on every run (the theorem gives 'no successful return after a failing callback'); same store pairings as C01",
+    "level_note": "the limiter hand-off protocol (region.End/Start, permit conservation) is proved on the protocol model of C02 (restated as C04_permits_conserved / C04_inflight_bounded_by_permits) and observed through the in-flight gauges for every K in 1..8 and <= 0 (coverage floor: peak = K reached); 'no blob fetched more than once' holds for copyGraph only -- Copy's prologue can read the root / its config a second time (known finding prologue-read-twice, C04_single_fetch_refuted_by_prologue); 'aborts with that error': the theorem gives 'no successful return', identity of the error and loss in ExtendedCopy are oracle checks, promptness of the abort is C02's; 'the returned error is the callback's error' is checked by the oracle on every run (the theorem gives 'no successful return after a failing callback'); same store pairings as C01",
     "technique": "machine-checked proof in Coq (invariants and one-shot arguments over all accepted traces) + constant regenerated from copy.go + trace-acceptance correspondence + independent monitor oracle",
     "explanation": "recorded traces of Copy/CopyGraph under contention (K=1,2, wide graphs) must be runs of Model/CopySpec.v whose guards include the active-task bound; wrappers keep in-flight gauges and per-node counters; callback-failure injection checks the error surfaces",
 }
